@@ -456,6 +456,9 @@ fn channel_scenario(bytes: &[u8], trace: bool) {
         k => k,
     };
     let guard_first = c.chance(24); // drop the guard before anything is collected
+    // drop the guard from inside the handler of another Waker (created first, so it runs first
+    // in a poll-wake batch): the channel's own handler may then still be due in that batch
+    let guard_via_handler = !guard_first && guard_after != 0 && c.chance(80);
 
     let now = Instant::now();
     let mut stakker = Stakker::new(now);
@@ -465,6 +468,23 @@ fn channel_scenario(bytes: &[u8], trace: bool) {
     let recv: Rc<RefCell<Vec<((usize, usize), usize)>>> = Rc::new(RefCell::new(Vec::new()));
     let recv2 = recv.clone();
     let fwd: Fwd<(usize, usize)> = Fwd::new(move |m| recv2.borrow_mut().push((m, tick())));
+    let held: Rc<RefCell<Option<ChannelGuard>>> = Rc::new(RefCell::new(None));
+    let hstamp: Rc<RefCell<(Option<usize>, Option<usize>)>> = Rc::new(RefCell::new((None, None)));
+    let aux = if guard_via_handler {
+        let held = held.clone();
+        let hstamp = hstamp.clone();
+        Some(s.waker(move |_, deleted| {
+            if !deleted {
+                if let Some(g) = held.borrow_mut().take() {
+                    let b = tick();
+                    drop(g);
+                    *hstamp.borrow_mut() = (Some(b), Some(tick()));
+                }
+            }
+        }))
+    } else {
+        None
+    };
     let (chan, guard): (Channel<(usize, usize)>, ChannelGuard) = Channel::new(s, fwd);
     let mut guard = Some(guard);
     if trace {
@@ -525,7 +545,16 @@ fn channel_scenario(bytes: &[u8], trace: bool) {
         poll.respond(s, now);
         answered += 1;
         if guard_after != 0 && answered == guard_after {
-            drop_guard(&mut guard, &mut g_begin, &mut g_end);
+            match &aux {
+                Some(w) => {
+                    // hand the guard to the other handler and wake it from this thread
+                    if let Some(g) = guard.take() {
+                        *held.borrow_mut() = Some(g);
+                        w.wake();
+                    }
+                }
+                None => drop_guard(&mut guard, &mut g_begin, &mut g_end),
+            }
         }
     }
     let mut sends: Vec<SendRec> = Vec::new();
@@ -536,10 +565,22 @@ fn channel_scenario(bytes: &[u8], trace: bool) {
         closed.extend(b);
     }
     while poll.respond(s, now) {}
+    let mut via_handler = false;
+    if aux.is_some() {
+        if let (Some(b), Some(e)) = *hstamp.borrow() {
+            g_begin = Some(b);
+            g_end = Some(e);
+            via_handler = true;
+        } else if let Some(g) = held.borrow_mut().take() {
+            // the other handler never ran (cannot happen when every poll-wake is answered)
+            guard = Some(g);
+        }
+    }
     let never_dropped = guard.is_some();
     let received = recv.borrow().clone();
     // now close for real and release everything
     drop_guard(&mut guard, &mut g_begin, &mut g_end);
+    drop(aux);
     while poll.respond(s, now) {}
     drop(stakker);
 
@@ -619,6 +660,9 @@ fn channel_scenario(bytes: &[u8], trace: bool) {
     }
     if sends.iter().any(|r| !r.2) {
         classes.push("send-rejected");
+    }
+    if via_handler {
+        classes.push("guard-dropped-inside-another-wake-handler");
     }
     set_outcome(Outcome {
         violation,
